@@ -45,13 +45,15 @@ def main():
         sh("git -C /repo worktree prune")
         sh(["git", "-C", "/repo", "worktree", "add", "--detach", repo, "HEAD", "-q"], check=True)
         rc, diff = sh("git -C /repo diff -- . " + " ".join("':(exclude)%s'" % f for f in args.skip_wt))
+        if os.environ.get("EVAL_NO_WT"):   # evaluate against /repo HEAD only (other people's uncommitted work is ignored)
+            diff = ""
         if diff.strip():
             p = subprocess.run(["git", "apply"], cwd=repo, input=diff, text=True)
             if p.returncode != 0:
                 raise SystemExit("could not transplant /repo's working-tree changes")
         rc, others = sh("git -C /repo ls-files --others --exclude-standard")
         for f in others.split():
-            if "verif_hooks" in f:
+            if "verif_hooks" in f and not os.environ.get("EVAL_NO_WT"):
                 os.makedirs(os.path.dirname(os.path.join(repo, f)) or repo, exist_ok=True)
                 shutil.copyfile(os.path.join("/repo", f), os.path.join(repo, f))
         # demo without the patch
